@@ -331,6 +331,52 @@ func runCheck(opt *checkOpts) int {
 			}
 		}
 	}
+	// ---- bounded stand-ins (functions outside the verifier's reach; labelled bounded, never counted as proved) ----
+	boundedEv := []map[string]any{}
+	var boundedFailed []string
+	if opt.only == "" && !opt.noReplay {
+		for _, b := range loadBounded(opt.verif) {
+			if b.Property != opt.property {
+				continue
+			}
+			tb := time.Now()
+			out, _ := runOverlayTest(opt.repo, b.Pkg, filepath.Join(opt.verif, b.File), b.Run, 120*time.Second)
+			okLine, failLine := "", ""
+			for _, l := range strings.Split(out, "\n") {
+				l = strings.TrimSpace(l)
+				if strings.HasPrefix(l, "BOUNDED-OK") {
+					okLine = l
+				}
+				if strings.HasPrefix(l, "BOUNDED-FAIL") && failLine == "" {
+					failLine = l
+				}
+			}
+			rec := map[string]any{"name": b.Name, "function": b.Function, "bound": b.Bound, "covers": b.Covers, "wall_s": round3(time.Since(tb).Seconds())}
+			switch {
+			case failLine != "":
+				rec["result"] = "violated"
+				rec["failing_case"] = failLine
+				boundedFailed = append(boundedFailed, "bounded."+b.Name)
+				violations++
+				path := writeNote(opt, "bounded_"+b.Name, "bounded stand-in "+b.Name+" ("+b.Bound+") found a failing case on the real code: "+failLine+"\nre-run: go test -overlay (see tools) "+b.Run)
+				violLines = append(violLines, fmt.Sprintf("VIOLATION property=%s replay=%s", opt.property, path))
+			case okLine != "":
+				rec["result"] = "held on every case"
+				rec["summary"] = okLine
+			default:
+				rec["result"] = "did not run"
+				boundedFailed = append(boundedFailed, "bounded."+b.Name+"(did-not-run)")
+				tail := out
+				if len(tail) > 800 {
+					tail = tail[len(tail)-800:]
+				}
+				violations++
+				path := writeNote(opt, "bounded_"+b.Name, "bounded stand-in "+b.Name+" did not run (build error after a change of the code under test?):\n"+tail)
+				violLines = append(violLines, fmt.Sprintf("VIOLATION property=%s replay=%s no-failing-input-found", opt.property, path))
+			}
+			boundedEv = append(boundedEv, rec)
+		}
+	}
 	for _, l := range violLines {
 		fmt.Println(l)
 	}
@@ -349,6 +395,9 @@ func runCheck(opt *checkOpts) int {
 			if a.ok != a.n {
 				fmt.Printf("  FAILED %s (%d/%d) %v at %s\n", cl, a.ok, a.n, a.verdicts, a.pos)
 			}
+		}
+		for _, b := range boundedFailed {
+			fmt.Printf("  FAILED %s (bounded stand-in found a failing case)\n", b)
 		}
 		for _, s := range stale {
 			fmt.Printf("  STALE-FINDING %s is listed open but discharged\n", s)
@@ -431,7 +480,7 @@ func runCheck(opt *checkOpts) int {
 			"known_finding_obligations_excluded": nKnownObl,
 			"stale_findings":           stale,
 			"undecided_clauses_of_the_property": und,
-			"bounded_standins":         []string{},
+			"bounded_standins":         boundedEv,
 			"preconditions_assumed_at_entry_points": entryPre,
 			"max_query_kB":             maxQuery / 1024,
 			"explanation":              "obligations = SMT queries generated from /repo's current source for the functions and lemmas listed (safety, frame, loop invariant entry/preservation, variants, call preconditions, postconditions); discharged = answered unsat. Refuted obligations that are listed known findings are reported separately and are not counted.",
@@ -448,6 +497,25 @@ func runCheck(opt *checkOpts) int {
 		return 1
 	}
 	return 0
+}
+
+type Bounded struct {
+	Property string `json:"property"`
+	Name     string `json:"name"`
+	Function string `json:"function"`
+	Pkg      string `json:"pkg"`
+	File     string `json:"file"`
+	Run      string `json:"run"`
+	Bound    string `json:"bound"`
+	Covers   string `json:"covers"`
+}
+
+func loadBounded(verif string) []Bounded {
+	var bs []Bounded
+	if data, err := os.ReadFile(filepath.Join(verif, "bounded.json")); err == nil {
+		json.Unmarshal(data, &bs)
+	}
+	return bs
 }
 
 func round3(f float64) float64 { return float64(int(f*1000+0.5)) / 1000 }
